@@ -44,8 +44,8 @@ def _agg_common(L, i, hits, count, prev):
                                 [MP(rh[k], hits[t])])),
         ('runs_nonempty', forall(k, z3.Implies(rng(0, k, r), z3.And(rc[k] >= 1, rs[k] >= 0)), [rc[k]])),
         ('runs_tile', z3.And(z3.Implies(r > 0, rs[0] == 0),
-                             forall(k, z3.Implies(z3.And(0 <= k, k + 1 < r), z3.And(rs[k + 1] == rs[k] + rc[k], rh[k] != rh[k + 1])),
-                                    [rs[k + 1]]))),
+                             forall(k, z3.Implies(z3.And(1 <= k, k < r), z3.And(rs[k] == rs[k - 1] + rc[k - 1], rh[k - 1] != rh[k])),
+                                    [rs[k]]))),
         ('runs_end_where_current_starts', z3.And(z3.Implies(r > 0, z3.And(rs[r - 1] + rc[r - 1] == covered, rh[r - 1] != prev)),
                                                  z3.Implies(r == 0, covered == 0))),
         ('run_texts', forall(k, z3.Implies(rng(0, k, r), z3.And(out.raw(k).t == HS(rc[k], rh[k]),
@@ -81,11 +81,11 @@ def _agg_ensures(C, res):
     return [
         ('runs_expand_to_exactly_the_hits', z3.And(
             z3.Implies(r > 0, z3.And(rs[0] == 0, rs[r - 1] + rc[r - 1] == hits.len)),
-            forall(k, z3.Implies(z3.And(0 <= k, k + 1 < r), rs[k + 1] == rs[k] + rc[k]), [rs[k + 1]]),
+            forall(k, z3.Implies(z3.And(1 <= k, k < r), rs[k] == rs[k - 1] + rc[k - 1]), [rs[k]]),
             forall([k, t], z3.Implies(z3.And(rng(0, k, r), rs[k] <= t, t < rs[k] + rc[k]), hits[t] == rh[k]),
                    [MP(rh[k], hits[t])]),
             forall(k, z3.Implies(rng(0, k, r), rc[k] >= 1), [rc[k]]))),
-        ('adjacent_runs_differ', forall(k, z3.Implies(z3.And(0 <= k, k + 1 < r), rh[k] != rh[k + 1]), [rh[k + 1]])),
+        ('adjacent_runs_differ', forall(k, z3.Implies(z3.And(1 <= k, k < r), rh[k - 1] != rh[k]), [rh[k]])),
         ('run_texts', forall(k, z3.Implies(rng(0, k, r), res.raw(k).t == HS(rc[k], rh[k])), [res.raw(k).t])),
         texts,
         ('nonempty_when_hits', r >= 1),
